@@ -164,3 +164,13 @@ def _dur_plus_tp_cases():
 
 from . import REGISTRY  # noqa
 REGISTRY["data:Duration.__add__"].cases = list(REGISTRY["data:Duration.__add__"].cases) + _dur_plus_tp_cases()
+
+# d + p with p = 24:00 and d empty: the region of KF-C01-1 reached through Duration.__add__
+REGISTRY["data:Duration.__add__"].regions = [{
+    "name": "zero-plus-24h", "owner": "C01",
+    "when": "(other._hour_of_day == 24 and d_days(self) == 0 and d_hours(self) == 0"
+            " and d_minutes(self) == 0 and d_seconds(self) == 0"
+            " and d_years(self) == 0 and d_months(self) == 0)"
+            " if classname(other) == 'TimePoint' else False",
+    "cases": r".*\+tp-.*",
+    "ensures": ["fresh(result)", "tp_same_fields(result, other)"]}]
